@@ -262,6 +262,8 @@ func checkC18(c *Ctx) {
 	c.Clause("numeric plugin options accept the dynamic types yaml.v3 yields (int, int64, float64)")
 	c.Clause("every scalar of the shipped helios.yaml / helios.docker.yaml lies in the validator's accept region / table; every plugin named there is registered and its numeric options have an accepted type")
 	c.Clause("each fallible start-up step's error edge reaches Fatal before the listener starts")
+	c.Clause("every option a plugin factory looks up and validates reaches a result of the factory on every accepting path (a value validated and then shadowed or dropped is reported); options the README documents with a default may be omitted and then take that default")
+	c.Clause("a backend address is accepted only as an http(s) URL with a host; an omitted log level is tested before zerolog.ParseLevel (which maps \"\" to NoLevel without error); the listener's start error reaches main")
 	c.NotDecided("README prose beyond the enumerations above; yaml.v3 decoding itself; that an accepted configuration yields a working proxy")
 
 	// 1. completeness of validation
